@@ -498,7 +498,7 @@ fn server_tails(h: &ServerH) -> Vec<(String, Vec<u8>)> {
         ]),
         ("commands", vec![
             SAct::Connect { tx: 4.0, app: "b".into() }, SAct::CreateStream { tx: 5.0 }, SAct::Publish { sid: 2, key: "k3".into(), mode: "record".into() },
-            SAct::Play { sid: 1, key: "k4".into() }, SAct::DeleteStream { sid: 2 }, SAct::UnknownCommand, SAct::Ping { ts: 1 },
+            SAct::Play { sid: 1, key: "k4".into() }, SAct::DeleteStream { sid: 2 }, SAct::UnknownCommand, SAct::Ping { ts: 1 }, SAct::Ping { ts: 2 }, SAct::Ping { ts: 2 },
         ]),
         ("window announcement then media", vec![
             SAct::Raw { msid: 0, type_id: 5, body: vec![0, 0, 0, 40] }, SAct::Audio { sid: 1, ts: 5, len: 50 }, SAct::Ping { ts: 3 }, SAct::Video { sid: 1, ts: 6, len: 40 },
@@ -554,7 +554,7 @@ fn client_tails(h: &ClientH, playing: bool) -> Vec<(String, Vec<u8>)> {
     let mut out = Vec::new();
     let mut scripts: Vec<(&str, Vec<CAct>)> = vec![
         ("results, status, ping", vec![
-            CAct::Result { tx: 99.0, stream: Some(3.0) }, CAct::OnStatus { code: "NetStream.Play.Reset".into() }, CAct::Ping { ts: 5 }, CAct::Ack { n: 7 }, CAct::UnknownCommand,
+            CAct::Result { tx: 99.0, stream: Some(3.0) }, CAct::OnStatus { code: "NetStream.Play.Reset".into() }, CAct::Ping { ts: 5 }, CAct::Ping { ts: 6 }, CAct::Ping { ts: 6 }, CAct::Ack { n: 7 }, CAct::UnknownCommand,
             CAct::Meta { msid: 5, variant: 3 }, CAct::Error { tx: 98.0 },
         ]),
         ("window announcement, chunk size, ping", vec![
